@@ -20,13 +20,13 @@
     write/read the same bit string directly.  Reads of packed data are preceded by the C code's size check and
     go through the checked [take]. *)
 From Coq Require Import NArith ZArith List Bool.
-From Carquet Require Import Base.Res Gen.Consts_gen Enc.DeltaBits.
+From Carquet Require Import Gen.Enums_gen Base.Res Gen.Consts_gen Enc.DeltaBits.
 Import ListNotations.
 Local Open Scope N_scope.
 
-Definition ERR_DECODE : Z := 40%Z.
-Definition ERR_ENCODE : Z := 41%Z.
-Definition ERR_END_OF_DATA : Z := 63%Z.
+Definition ERR_DECODE : Z := E_CARQUET_ERROR_DECODE.            (* 40, regenerated from include/carquet/error.h *)
+Definition ERR_ENCODE : Z := E_CARQUET_ERROR_ENCODE.            (* 41 *)
+Definition ERR_END_OF_DATA : Z := E_CARQUET_ERROR_END_OF_DATA.  (* 63 *)
 
 Definition BLOCK : N := Delta_DELTA_BLOCK_SIZE.            (* 128 *)
 Definition MINIS : N := Delta_DELTA_MINI_BLOCKS.           (* 4 *)
